@@ -249,6 +249,13 @@ class Machine:
 
 
 def run_histories(universe, refs, histories, stats=None):
+    import contextlib
+    import io
+    with contextlib.redirect_stdout(io.StringIO()):
+        return _run_histories(universe, refs, histories, stats)
+
+
+def _run_histories(universe, refs, histories, stats=None):
     for hi, ops in enumerate(histories):
         m = Machine(universe, refs, stats)
         try:
@@ -262,6 +269,10 @@ def run_histories(universe, refs, histories, stats=None):
 
 
 def universe_worker(job):
+    return engine.run_isolated(_universe_worker, job)
+
+
+def _universe_worker(job):
     from . import dznbuild
     dznbuild.ensure_repo_dznpy()
     seed, u, n_hist = job['seed'], job['u'], job['n_hist']
